@@ -29,7 +29,85 @@ def gen_symbols():
     return {"GenSymbols.v": txt}
 
 
-GENERATORS = [gen_symbols]
+def _atoms_of(smiles):
+    """true atoms (after AddHs) and charge of a SMILES, read from RDKit directly"""
+    from rdkit import Chem
+    m = Chem.MolFromSmiles(smiles)
+    if m is None:
+        return None
+    zs = [a.GetAtomicNum() for a in m.GetAtoms()] + [1] * sum(a.GetTotalNumHs() for a in m.GetAtoms())
+    return zs, sum(a.GetFormalCharge() for a in m.GetAtoms()), sum(abs(a.GetFormalCharge()) for a in m.GetAtoms())
+
+
+def _rule_records(name, recs):
+    if not isinstance(recs, list):
+        raise GenError(name + ": not a list")
+    rules, atoms = [], []
+    for r in recs:
+        if not (isinstance(r, dict) and set(r) == {"formula", "smiles", "Composition"} and isinstance(r["formula"], str)
+                and isinstance(r["smiles"], str) and isinstance(r["Composition"], dict)
+                and all(isinstance(k, str) and isinstance(v, int) and not isinstance(v, bool) for k, v in r["Composition"].items())):
+            raise GenError("%s: record of unexpected shape: %r" % (name, r))
+        a = _atoms_of(r["smiles"])
+        if a is None:
+            raise GenError("%s: SMILES of a record does not parse: %r" % (name, r))
+        rules.append("{| rformula := %s; rsmiles := %s; rcomp := %s; rabsq := %s |}" % (cstr(r["formula"]), cstr(r["smiles"]), cdict(r["Composition"]), cz(a[2])))
+        atoms.append(cpair(clist(a[0], cz), cz(a[1])))
+    return ("Definition %s : list rule :=\n  [ %s ].\n" % (name, ";\n    ".join(rules)) +
+            "(* oracle columns: atoms after AddHs and net charge of each record's SMILES, read from RDKit *)\n"
+            "Definition %s_atoms : list (list Z * Z) :=\n  [ %s ].\n" % (name, ";\n    ".join(atoms)))
+
+
+def gen_rules():
+    import importlib.resources, synrbl.SynRuleImputer
+    from synrbl.rule_based import RuleBasedMethod
+    shipped = RuleBasedMethod("id", "reaction", "reaction").rules        # what the pipeline really loads
+    with open(os.path.join(REPO, "Data", "Rules", "automated_rules.json.gz")) as f:
+        auto = json.load(f)
+    txt = HEADER % "synrbl/SynRuleImputer/rules_manager.json.gz (as loaded by RuleBasedMethod) and Data/Rules/automated_rules.json.gz"
+    txt += "From SynRBL Require Import Base.Dict Model.Matcher.\nOpen Scope Z_scope.\n\n"
+    txt += _rule_records("rules_manager", shipped) + "\n" + _rule_records("automated_rules", auto)
+    return {"GenRules.v": txt}
+
+
+def observe_ban():
+    """The ban list RuleBasedMethod.run hands to RuleConstraint, observed by running it once."""
+    import synrbl.rule_based as rb
+    from synrbl.SynRuleImputer.synthetic_rule_constraint import RuleConstraint
+    seen = {}
+    orig = RuleConstraint.__init__
+
+    def spy(self, list_dict, ban_atoms=None, ban_atoms_reactants=None):
+        orig(self, list_dict, ban_atoms=ban_atoms, ban_atoms_reactants=ban_atoms_reactants)
+        seen["ban"] = list(self.ban_atoms)
+        seen["ban_raw"] = list(ban_atoms) if ban_atoms is not None else None
+        seen["ban_reactants"] = list(self.ban_atoms_reactants)
+    rb.RuleConstraint.__init__ = spy
+    try:
+        m = rb.RuleBasedMethod("id", "reaction", "reaction", n_jobs=1)
+        m.run([{"id": "0", "reaction": "CCBr>>CCO", "carbon_balance_check": "balanced"}])
+    finally:
+        rb.RuleConstraint.__init__ = orig
+    if "ban" not in seen or not all(isinstance(x, str) for x in seen["ban"]):
+        raise GenError("ban list of the rule-based stage not observed")
+    return seen
+
+
+def gen_const():
+    """Literals the models share with the source, observed at run time."""
+    seen = observe_ban()
+    from synrbl import Balancer
+    from synrbl.mcs_search import MCSSearch
+    b = Balancer(n_jobs=1)
+    txt = HEADER % "synrbl/rule_based.py (ban list handed to RuleConstraint, after Chem.CanonSmiles), synrbl/balancing.py (columns)"
+    txt += "Definition ban_atoms_canon : list string := %s.\n" % clist(seen["ban"], cstr)
+    txt += "Definition ban_atoms_reactants : list string := %s.\n" % clist(seen["ban_reactants"], cstr)
+    txt += "Definition balancer_columns : list string := %s.\n" % clist(b.columns, cstr)
+    txt += "Definition mcs_condition_count : nat := %d.\n" % len(MCSSearch("id").conditions)
+    return {"GenConst.v": txt}
+
+
+GENERATORS = [gen_symbols, gen_rules, gen_const]
 
 
 def generate():
